@@ -17,7 +17,7 @@ From WM Require Import Base.Prelude Message.Model Message.Proofs Handler.RouterH
   Handler.Poison Handler.PoisonProofs Handler.PoisonConc Handler.PoisonConcProofs
   Handler.PoisonRetry Handler.PoisonRetryProofs
   Handler.PoisonMeta Handler.PoisonProofs3 Handler.PoisonConcSpec Handler.PoisonConcProofs3
-  Handler.PoisonRetryObs Handler.PoisonRetryProofs3.
+  Handler.PoisonRetryObs Handler.PoisonRetryProofs3 Handler.PoisonCtx Handler.PoisonCtxProofs.
 From WM Require Handler.Retry.
 
 (** PoisonQueue / PoisonQueueWithFilter yield a middleware iff the topic is non-empty *)
@@ -470,6 +470,31 @@ Print Assumptions C13_concurrent_refines_atomic.
 Print Assumptions C13_concurrent_serializable.
 Print Assumptions C13_retry_exhausted_poisoned_once_and_acked.
 Print Assumptions C13_retry_acceptor_model_accepted.
+
+(** ** where "topic, handler and subscriber" come from: Router.addHandlerContext + the readers
+    of router_context.go (Handler/PoisonCtx.v) *)
+
+(** as the code is now, whatever context the consumed message already carried, all five readers
+    answer with the CONSUMING handler's values and the poison queue names that handler *)
+Theorem C13_context_names_consuming_handler : forall b p,
+  add_handler_ctx true b p = RV (hc_name b) (hc_pubname b) (hc_subname b) (hc_subtopic b) (hc_pubtopic b)
+  /\ poison_view (add_handler_ctx true b p) = RC (hc_subtopic b) (hc_name b) (hc_subname b).
+Proof. exact ctx_names_consumer. Qed.
+
+Theorem C13_context_keys_written : forall via b reason md,
+  mget K_TOPIC (stamp (poison_view (consumed_ctx true via b)) reason md) = Some (hc_subtopic b)
+  /\ mget K_HANDLER (stamp (poison_view (consumed_ctx true via b)) reason md) = Some (hc_name b)
+  /\ mget K_SUB (stamp (poison_view (consumed_ctx true via b)) reason md) = Some (hc_subname b).
+Proof. exact ctx_stamped. Qed.
+
+(** the pinned behaviour (values written only when non-empty) named another handler's
+    subscriber for a re-emitted object: the theorem above is sensitive to exactly the repair *)
+Theorem C13_context_pinned_behaviour_refuted :
+  exists a b, poison_view (consumed_ctx false (Some a) b) <> RC (hc_subtopic b) (hc_name b) (hc_subname b).
+Proof. exact ctx_pinned_refuted. Qed.
+Print Assumptions C13_context_names_consuming_handler.
+Print Assumptions C13_context_keys_written.
+Print Assumptions C13_context_pinned_behaviour_refuted.
 
 (** the same schedule on the real semantics publishes message 0 *)
 Example C13_inflight_witness :
